@@ -168,6 +168,7 @@ type fnCtx struct {
 	inlineDepth int
 	inlineStack []*ssa.Function
 	aliasOf map[string]Val
+	aliasOff map[string]string // offset of a reslice x[lo:..] in its source
 	aliasCell map[*ssa.Alloc]Val
 	freshRefs map[string]bool
 	frozenTag map[string]*types.Map
